@@ -312,6 +312,40 @@ Theorem C11_reissue_from_final_url_refuted :
                    s_host s' <> init -> In (bs "Authorization", 0) (s_hdrs s')).
 Proof. exact reissue_from_final_refuted. Qed.
 
+(* ---- the digest-auth re-send: one more request, to the NAMED host, never followed further ---- *)
+
+Theorem C11_digest_resend_goes_to_the_named_host : forall ps init hs targets s,
+  In s (fst (digest_call ps init hs targets)) ->
+  In s (fst (run_chain ps init hs targets)) \/ s_host s = init.
+Proof. exact digest_call_requests. Qed.
+Print Assumptions C11_digest_resend_goes_to_the_named_host.
+
+(* the digest answer, and the caller's other sensitive headers with it, reach no host but the
+   named one and those Go's cross-origin rule allows *)
+Theorem C11_digest_call_credentials_only_where_allowed : forall ps init hs targets s n k,
+  is_sensitive n = true -> mem_bytes n (always_names ps) = false ->
+  In s (fst (digest_call ps init hs targets)) -> In (n, k) (s_hdrs s) -> k <> 0 ->
+  s_host s = init \/ should_copy init (s_host s) = true.
+Proof. exact digest_call_sensitive. Qed.
+Print Assumptions C11_digest_call_credentials_only_where_allowed.
+
+Theorem C11_no_digest_resend_after_a_refusal : forall ps init hs targets,
+  snd (run_chain ps init hs targets) = Refused ->
+  digest_call ps init hs targets = run_chain ps init hs targets.
+Proof. exact digest_call_refused. Qed.
+Print Assumptions C11_no_digest_resend_after_a_refusal.
+
+(* the design of seeded change d-m1 (re-send to the LAST hop's URL with the first request's headers)
+   delivers the digest answer and the caller's Cookie to a host only learned from a redirect *)
+Theorem C11_digest_resend_to_last_hop_refuted :
+  exists ps init hs targets s,
+    In s (fst (digest_call_last_hop ps init hs targets)) /\
+    s_host s <> init /\ should_copy init (s_host s) = false /\
+    In (bs "Authorization", 1) (s_hdrs s) /\ In (bs "Cookie", 1) (s_hdrs s) /\
+    (forall s', In s' (fst (digest_call ps init hs targets)) -> s_host s' <> init ->
+                In (bs "Authorization", 0) (s_hdrs s') /\ In (bs "Cookie", 0) (s_hdrs s')).
+Proof. exact digest_call_last_hop_refuted. Qed.
+
 (* ---- the tie to the source text (gosync, regenerated on every run) ---- *)
 
 (* the model's decision of every policy value is the boolean function translated from the body of
